@@ -242,6 +242,8 @@ pub fn derive(case: &GlmCase) -> Option<Derived> {
 }
 
 pub const FIRST_STEP_CAP: f64 = 6.0;
+/// a non-stationary GLM result is not judged when the harness Hessian at the returned point has a condition number above this
+pub const COND_MAX: f64 = 1e10;
 
 /// start point of linfa's solver: coefficients 0, intercept = link(mean(y))
 pub fn start_point(y: &[f64], p: usize, intercept: bool, link: Lk) -> Vec<f64> {
@@ -413,6 +415,7 @@ pub fn check(case: &GlmCase, obs: &mut Obs) {
         eprintln!("DEBUG glm: y = {:?}", d.y); // manual child runs only (stderr of real children is discarded)
         eprintln!("DEBUG glm: x[0..3] = {:?} shrunk_steps {}", &d.x[..d.x.len().min(3)], d.shrunk_steps);
         eprintln!("DEBUG glm: start {:?} returned {:?}", start_point(&d.y, d.p, d.intercept, d.link), theta);
+        eprintln!("DEBUG glm: hessian condition {:e}", model::hessian_condition(&obj, &theta));
         eprintln!("DEBUG glm: F {:e} grad {:?} curv {:e} verdict {:?} gap {:?}", obj.value(&theta), obj.grad(&theta), obj.curv(&theta), j.verdict, j.gap);
     }
     let mut j = j;
@@ -427,6 +430,12 @@ pub fn check(case: &GlmCase, obs: &mut Obs) {
         if !same {
             j.verdict = Verdict::IterationCap;
         }
+    }
+    let mut ill_conditioned = false;
+    if j.verdict == Verdict::NotStationary && model::hessian_condition(&obj, &theta) > COND_MAX {
+        // the feature shrinking above can produce absurdly conditioned problems (observed 1e14 at target scale 1e6):
+        // L-BFGS in f64 stalls there on correct code; such a result says nothing about the gradient code
+        ill_conditioned = true;
     }
     let mut judged = true;
     match j.verdict {
@@ -472,6 +481,10 @@ pub fn check(case: &GlmCase, obs: &mut Obs) {
                     ),
                 );
             }
+        }
+        Verdict::NotStationary if ill_conditioned => {
+            obs.class("glm_ill_conditioned_not_judged");
+            judged = false;
         }
         Verdict::NotStationary => {
             let sig = if d.power == 1.0 { "glm:not-stationary:poisson" } else { "glm:not-stationary" };
